@@ -260,7 +260,7 @@ def c08_histories(run):
         vals = gen.values_for(None)
         if run.tier == "quick":
             vals = vals[::2]
-        for i, mk, e in element_cases(2):
+        for i, mk, e in element_cases(2 if run.tier == "quick" else 3):
             before = (obs(e), serial(e))
             for v in vals:
                 v0 = copy.deepcopy(v)
@@ -588,7 +588,7 @@ def c05_defaults(run):
                         if obs(got) != obs(want):
                             acc.fail(key, f"omitted property {p.source!r} (Python name {n}): model.{n} = {got!r}, expected its default {want!r}")
         # calling any element with no value
-        for i, mk, e in element_cases(2):
+        for i, mk, e in element_cases(2 if run.tier == "quick" else 3):
             d = getattr(e, "default", NotPassed())
             key = f"{edesc(e)}()"
             try:
